@@ -181,7 +181,22 @@ func (p *Program) VerifyFunc(c *Contract) (res *FuncResult) {
 	}
 	var bind []Val
 	for _, fv := range fn.FreeVars {
-		bind = append(bind, ex.symVal(st, "fv_"+fv.Name(), fv.Type(), 0))
+		bv := ex.symVal(st, "fv_"+fv.Name(), fv.Type(), 0)
+		bind = append(bind, bv)
+		// a closure's captured variables are readable in its contract by their source names (entry values)
+		if _, clash := vars[fv.Name()]; !clash {
+			if pv, isPtr := bv.(PtrV); isPtr && pv.K == PCell {
+				if pt, ok := fv.Type().Underlying().(*types.Pointer); ok {
+					if cv, have := st.Cells[pv.Cell]; have && len(pv.Path) == 0 {
+						vars[fv.Name()] = cv
+						vtypes[fv.Name()] = pt.Elem()
+					}
+				}
+			} else {
+				vars[fv.Name()] = bv
+				vtypes[fv.Name()] = fv.Type()
+			}
+		}
 	}
 	// instance contracts: parameters bound to concrete values (bind p = expr)
 	for _, b := range c.Binds {
